@@ -386,21 +386,102 @@ class LineWorld(OracleWorld):
         me = st.heap[("arg", 0)]
         return me.fields[self.ln_field]
 
+    # ---- the line buffer: Opq("linebuf", (k, removed)) = the k-th line as read, minus `removed` trailing bytes.
+    # A line as read is body ++ terminator, terminator in {"", "\n", "\r\n"} (chosen per path when needed).
+    TERMS = ["", "\n", "\r\n"]
+
+    def term_of(self, st, k):
+        return st.choose(("term", k), self.TERMS)
+
+    def linebuf(self, m, st, v):
+        v = deref_all(m, st, v)
+        return v if isinstance(v, Opq) and v.kind == "linebuf" else None
+
+    def removed_by(self, st, k, x):
+        """x = (length of line k as read) - j  ->  j, for a constant j >= 0; else None."""
+        if isinstance(x, Sym):
+            b, off = ip.lin_parts(x)
+            if b == ("nbytes", k) and off <= 0:
+                return -off
+        return None
+
     def call(self, m, st, callee, args, term):
         p = callee["path"]
-        if p == READ_LINE or callee["name"] == "read_line" and callee["crate"] != "precis_tools":
+        name = callee["name"]
+        lb = self.linebuf(m, st, args[0]) if args else None
+        if lb is not None and p != STR_PARSE and not (name == "from_str"):
+            k, removed = lb.data
+            if name in ("deref", "as_str", "as_ref", "borrow", "deref_mut", "as_mut_str"):
+                return args[0] if isinstance(args[0], Ref) else Ref(("val", lb))
+            if name == "len":
+                return ip.mk_lin(("nbytes", k), -removed, "usize")
+            if name == "index" and len(args) == 2:
+                # &line[..x] / &line[a..]: only a prefix keeps the row's beginning
+                r = deref_all(m, st, args[1])
+                if isinstance(r, Adt) and r.ty.endswith("RangeTo"):
+                    j = self.removed_by(st, k, r.fields[0])
+                    if j is not None and j >= removed:
+                        return Ref(("val", Opq("linebuf", (k, j))))
+                raise AnalysisError("the line buffer is sliced with %r" % (r,))
+            if name == "truncate" and len(args) == 2:
+                j = self.removed_by(st, k, args[1])
+                if j is None or j < removed:
+                    raise AnalysisError("the line buffer is truncated to %r" % (args[1],))
+                if isinstance(args[0], Ref):
+                    m.store(st, self._innermost(m, st, args[0]).loc, Opq("linebuf", (k, j)))
+                return ip.UNIT
+            if name == "pop":
+                if isinstance(args[0], Ref):
+                    m.store(st, self._innermost(m, st, args[0]).loc, Opq("linebuf", (k, removed + 1)))
+                return ip.some(Sym(("popped", k, removed), "char"))
+            if name in ("ends_with", "starts_with") and len(args) == 2 and name == "ends_with":
+                pat = args[1]
+                t = self.term_of(st, k)
+                rest = t[: max(len(t) - removed, 0)]
+                if isinstance(pat, I):
+                    if rest:
+                        return ip.boolean(ord(rest[-1]) == pat.v)
+                    # the terminator is gone: the row's own last character (a row never ends in CR/LF)
+                    if pat.v in (10, 13):
+                        return ip.boolean(False)
+                return ip.boolean(st.choose(("ends-with", k, removed, repr(pat)), [True, False]))
+            if name in ("trim_end", "trim_end_matches", "trim_right", "trim_right_matches", "trim", "trim_matches"):
+                st.emit(("trimmed", k, name))
+                return Ref(("val", Opq("linebuf", (k, ("trim", removed)))))
+            if name == "clear":
+                if isinstance(args[0], Ref):
+                    m.store(st, self._innermost(m, st, args[0]).loc, Opq("linebuf-empty", ()))
+                return ip.UNIT
+        if p == READ_LINE or name == "read_line" and callee["crate"] != "precis_tools":
             k = st.ext.get("reads", 0) + 1
             ans = st.choose(("read", k), ["Err", "Ok"])
             st.ext["reads"] = k
             st.emit(("read", k, self.current_ln(m, st), ans))
             if ans == "Err":
                 return ip.err(Opq("io-error", (k,)))
+            # the buffer handed in now holds line k
+            if len(args) >= 2 and isinstance(args[1], Ref):
+                try:
+                    m.store(st, self._innermost(m, st, args[1]).loc, Opq("linebuf", (k, 0)))
+                except AnalysisError:
+                    pass
             return ip.ok(Sym(("nbytes", k), "usize"))
         if p == STR_PARSE or (callee["name"] == "from_str" and not callee["resolved"]):
             k = st.ext.get("parses", 0) + 1
             ans = st.choose(("parse", k), ["Err", "Ok"])
+            src = self.linebuf(m, st, args[0]) if args else None
+            if src is None:
+                text = ("parsed-text", k, "other", repr(deref_all(m, st, args[0]))[:80] if args else "?")
+            else:
+                lk, removed = src.data
+                if isinstance(removed, tuple):
+                    text = ("parsed-text", k, "trimmed", lk)
+                else:
+                    text = ("parsed-text", k, "line", lk, removed, self.term_of(st, lk))
+            # (every decision above is taken before anything is recorded: a fork re-executes this call)
             st.ext["parses"] = k
             st.emit(("parse", k, self.current_ln(m, st), ans))
+            st.emit(text)
             if ans == "Ok":
                 return ip.ok(Sym(("row", k), "opaque!"))
             e = ty_.fresh(self.prog, ERR, ("row-error", k))
@@ -411,6 +492,12 @@ class LineWorld(OracleWorld):
             dl = term["dest"]
             return ty_.fresh(self.prog, st.frames[-1].body.locals[dl["l"]]["ty"] if not dl["p"] else "?", ("ext", callee["name"], st.fresh()))
         return OracleWorld.call(self, m, st, callee, args, term)
+
+    def _innermost(self, m, st, r):
+        from ..models import _innermost_ref
+
+        ref, _ = _innermost_ref(m, st, r)
+        return ref
 
     def opaque_const(self, st, c):
         return Opq("const", (c.get("ty"),))
@@ -533,6 +620,26 @@ def line_numbers(prog, rep):
                     good = isinstance(line, Adt) and line.ty == ip.OPTION and line.variant == 1 and line.fields[0] == reads[-1][2]
                     if not good:
                         stamp_bad.append("a row error is returned with line = %s instead of Some(number of the line just read)" % (("Some(%r)" % (line.fields[0].name,)) if isinstance(line, Adt) and line.variant == 1 and isinstance(line.fields[0], Sym) else "None" if isinstance(line, Adt) and line.variant == 0 else "an unrelated value"))
+    # what the row parser is given: the line just read, whole (at most its terminator removed)
+    text_bad = []
+    for o in outs:
+        if o.kind != "return":
+            continue
+        reads = [e for e in o.state.events if e[0] == "read"]
+        for e in o.state.events:
+            if e[0] != "parsed-text":
+                continue
+            if e[2] == "other":
+                text_bad.append("the row parser is given %s, not the line buffer filled by read_line" % e[3])
+            elif e[2] == "trimmed":
+                text_bad.append("the line is trimmed of white space before parsing: trailing blanks of a description are part of the row")
+            else:
+                _, _, _, lk, removed, t = e
+                if reads and lk != reads[-1][1]:
+                    text_bad.append("the row parser is given line %d of this call, the line just read is %d" % (lk, reads[-1][1]))
+                if removed > len(t):
+                    text_bad.append("when a line ends with %r, %d byte(s) are cut off before parsing: %d of them belong to the row (a last row without line terminator loses the end of its description)" % (t, removed, removed - len(t)))
+    rep.ob("line-numbers", "the row parser receives the line just read, at most without its terminator", not text_bad and n_paths > 0, "; ".join(sorted(set(text_bad))[:2]), b.where(), key="line-numbers|text")
     rep.extra["line_number_paths"] = n_paths
     rep.ob("line-numbers", "line_number += 1 exactly once before every read_line", not inc_bad and n_paths > 0, "; ".join(sorted(set(inc_bad))[:2]), b.where(), key="line-numbers|increment")
     rep.ob("line-numbers", "first physical line (header) skipped: rows start at line_number > 1", not hdr_bad and n_paths > 0, "; ".join(sorted(set(hdr_bad))[:2]), b.where(), key="line-numbers|header")
